@@ -6,9 +6,11 @@
 //!  (b) dynamic (this file): real threads call the public API on shared handles under a watchdog
 //!      (a scenario that does not finish is a deadlock candidate), the ticker-lifecycle oracle
 //!      watches the ticker thread through /proc/self/task, the screen of an InMemoryTerm and
-//!      WeakProgressBar::upgrade, and every executed scenario is replayed on the lock model built
-//!      from the GENERATED table (c08_check): the model must know every call by name, accept the
-//!      pool as well-formed and run it to completion, as the implementation did.
+//!      WeakProgressBar::upgrade; every executed scenario is also looked up in the GENERATED structured
+//!      table (c08_check_p): the model must know every call by name, every called program must be
+//!      prog_ordered, and the pool built from one canonical path per call must be well-formed and run
+//!      to completion.  That replay is a sanity check against table drift, NOT evidence that the
+//!      footprints are what the compiled code does (a well-formed pool always completes).
 use indicatif::{InMemoryTerm, MultiProgress, ProgressBar, ProgressDrawTarget, ProgressStyle};
 use std::collections::BTreeSet;
 use std::sync::mpsc;
@@ -815,7 +817,7 @@ fn main() {
     let a = args();
     let header = "From IndModel Require Import Base Locks.\nFrom IndGen Require Import LockFootprints.\n\
                   From Coq Require Import String.\nOpen Scope nat_scope.\n\
-                  Definition c08_chk := c08_check all_footprints ticker_body.\n";
+                  Definition c08_chk := c08_check_p all_programs ticker_prog.\n";
     let mut s = Session::new(&a, "C08", header, "c08case", "c08_chk");
     s.rule = "real threads through the public API under a 6 s watchdog: 2-3 threads x 1-5 calls (inc, set_position, tick, update, \
               set_message, println, suspend, finish*/abandon*, reset, enable/disable_steady_tick at 1 ms..1 h, clone+drop, drop, \
